@@ -3,7 +3,7 @@
 //! depth 2, builder chains), on the real `Runtime`, against an independent evaluator of
 //! the limit applied to the log of the real unlimited run.
 
-use des::runtime::RuntimeLimit;
+use des::runtime::{Builder, RuntimeLimit};
 use std::sync::Arc;
 use vcheck::rtlab::*;
 use vcheck::{json, quiet_catch, run_property, Ctx, Property, Tier, Value};
@@ -74,6 +74,10 @@ enum Via {
     ChainItrTime,
     /// Builder::max_time(x).max_itr(a)
     ChainTimeItr,
+    /// two plain bounds added one after the other through max_itr / max_time (either stops the run)
+    ChainLeaves,
+    /// the same through Builder::limit(leaf).limit(leaf)
+    ChainLimitLeaves,
 }
 
 fn run_case(cfg: RtCfg, prog: &Arc<Program>, lim: &Lim, via: Via, base: &[(u32, u128)]) -> Result<u64, String> {
@@ -90,6 +94,15 @@ fn run_case(cfg: RtCfg, prog: &Arc<Program>, lim: &Lim, via: Via, base: &[(u32, 
             (Lim::N(a), Lim::T(x)) => b.max_time(ns(*x)).max_itr(*a),
             _ => unreachable!(),
         },
+        (Via::ChainLeaves, Lim::Or(l1, l2)) => {
+            let add = |b: Builder, l: &Lim| match l {
+                Lim::N(a) => b.max_itr(*a),
+                Lim::T(x) => b.max_time(ns(*x)),
+                _ => unreachable!(),
+            };
+            add(add(b, l1), l2)
+        }
+        (Via::ChainLimitLeaves, Lim::Or(l1, l2)) => b.limit(l1.to_rt()).limit(l2.to_rt()),
         _ => unreachable!(),
     });
     let log = b.log.clone();
@@ -176,6 +189,15 @@ fn limits(m: usize, ts: &[u64], depth2: bool) -> Vec<(Lim, Via)> {
         }
     }
     if depth2 {
+        // every ordered pair of plain bounds added one after the other through the builder
+        let leaves: Vec<&Lim> = ns_.iter().chain(tsl.iter()).collect();
+        for l1 in &leaves {
+            for l2 in &leaves {
+                let or = Lim::Or(Box::new((*l1).clone()), Box::new((*l2).clone()));
+                out.push((or.clone(), Via::ChainLeaves));
+                out.push((or, Via::ChainLimitLeaves));
+            }
+        }
         // depth-2 trees: (N op T) op' leaf, for leaf in N ∪ T
         for l2 in &leaves2 {
             for leaf in ns_.iter().chain(tsl.iter()) {
@@ -200,7 +222,7 @@ impl Property for C11 {
     fn rule(&self, tier: Tier) -> String {
         format!(
             "every event program of 1..={} events (delays {{0,1,t,Y+1}}) x start in {{0,5}} x (n,t) in {:?} x every limit: None, EventCount(0..=m+1), SimTime(T) for T = every timestamp and +-1ns, \
-             And/Or of every (count, time) pair in both operand orders and via Builder::max_itr/max_time chains in both orders{}; \
+             And/Or of every (count, time) pair in both operand orders and via Builder::max_itr/max_time chains in both orders{}, and every ordered pair of plain bounds (count/count, time/time, mixed) added one after the other through max_itr/max_time and through limit(..).limit(..); \
              oracle: own evaluator applied to the log L of the real unlimited run: dispatched == longest admitted prefix of L, remaining == undelivered events with timestamps, end time, event_count; \
              non-trivial = the limit cuts the run strictly inside (0 < k < |L|)",
             tier.pick(4, 5),
@@ -212,7 +234,7 @@ impl Property for C11 {
         vec!["the time-ordered event sequence of a program is taken from the real unlimited run (differential), so the oracle does not depend on the tie rule".into()]
     }
     fn required_features(&self, _tier: Tier) -> Vec<&'static str> {
-        vec!["count_limit_equals_total", "time_limit_equals_a_timestamp", "time_limit_inside_tie_group", "and_tree", "or_tree", "builder_chain", "cut_with_remaining_events"]
+        vec!["count_limit_equals_total", "time_limit_equals_a_timestamp", "time_limit_inside_tie_group", "and_tree", "or_tree", "builder_chain", "builder_chain_of_two_bounds_of_one_kind", "cut_with_remaining_events"]
     }
     fn explore(&self, ctx: &mut Ctx) {
         let maxm = ctx.tier.pick(4, 5);
@@ -272,6 +294,13 @@ impl Property for C11 {
                             if via != Via::Limit {
                                 ctx.hit("builder_chain");
                             }
+                            if matches!(via, Via::ChainLeaves | Via::ChainLimitLeaves) {
+                                if let Lim::Or(a, b) = &lim {
+                                    if matches!((&**a, &**b), (Lim::T(_), Lim::T(_)) | (Lim::N(_), Lim::N(_))) {
+                                        ctx.hit("builder_chain_of_two_bounds_of_one_kind");
+                                    }
+                                }
+                            }
                             ctx.begin(|| case_json(cfg, &prog, &lim, via));
                             match run_case(cfg, &prog, &lim, via, &base) {
                                 Ok(o) => {
@@ -295,6 +324,8 @@ impl Property for C11 {
         let via = match case["via"].as_str().unwrap() {
             "ChainItrTime" => Via::ChainItrTime,
             "ChainTimeItr" => Via::ChainTimeItr,
+            "ChainLeaves" => Via::ChainLeaves,
+            "ChainLimitLeaves" => Via::ChainLimitLeaves,
             _ => Via::Limit,
         };
         let base = unlimited(cfg, &prog)?;
